@@ -55,11 +55,20 @@ def build_tools():
     rc, out = sh([hg, REPO, CACHE, os.path.join(VERIF, "tools", "implsrv")])
     if rc != 0:
         raise TieBroken("hookgen", out)
-    rc, out = sh(["go", "build", "-o", os.path.join(CACHE, "gontainer"), "."], cwd=REPO, env=GOENV)
+    cover = ["-cover", "-coverpkg=github.com/gontainer/gontainer/..."] if os.environ.get("VERIF_COVER") else []
+    rc, out = sh(["go", "build"] + cover + ["-o", os.path.join(CACHE, "gontainer"), "."], cwd=REPO, env=GOENV)
     if rc != 0:
         raise TieBroken("repo-build", out)
-    rc, out = sh(["go", "build", "-tags", "verif", "-overlay", os.path.join(CACHE, "overlay.json"),
-                  "-o", os.path.join(CACHE, "implsrv"), "./internal/verifdrv"], cwd=REPO, env=GOENV)
+    ov = ["-overlay", os.path.join(CACHE, "overlay.json")]
+    if cover:
+        # diagnostic mode only (tools/coverage.sh): `go build -cover` ignores -overlay, so the hook files are
+        # materialised — allowed only in a scratch copy of the repository, never in /repo itself
+        assert REPO != "/repo", "VERIF_COVER needs VERIF_REPO to point at a scratch copy"
+        for virt, real in json.load(open(os.path.join(CACHE, "overlay.json")))["Replace"].items():
+            os.makedirs(os.path.dirname(virt), exist_ok=True)
+            shutil.copy(real, virt)
+        ov = []
+    rc, out = sh(["go", "build"] + cover + ["-tags", "verif"] + ov + ["-o", os.path.join(CACHE, "implsrv"), "./internal/verifdrv"], cwd=REPO, env=GOENV)
     if rc != 0:
         raise TieBroken("implsrv-build", out)
 
